@@ -84,6 +84,17 @@ func expandC11(base Scenario, res *Result, tier string) []Scenario {
 	if len(res.Violations) > 0 || res.HarnessError != "" {
 		return nil
 	}
+	for _, m := range b.Dev.Modes {
+		for _, rep := range m.Cmds {
+			for _, t := range rep.Out {
+				if t.Delay > 0 {
+					// a slow grant: the base run is what matters, its fault variants would each sit
+					// through the device's long pause
+					return nil
+				}
+			}
+		}
+	}
 	var vs []Scenario
 	if b.Sub == "C10" {
 		// login dialogues are re-run with the device going silent at a few points (timeout paths)
